@@ -224,7 +224,7 @@ PROPS["C08"] = dict(
     keep_ids=_only(lambda i: i in (1, 2, 121, 122) or 200 <= i < 300),
     classify=_cls({121: "many_utxo_input_with_redeemer", 122: "shared_policy_different_redeemers"}),
     check_names={201: "spend and mint redeemers of the decoded witness set = the map built from the source in ledger order",
-                 202: "every withdrawal with a redeemer yields a Reward redeemer",
+                 202: "every withdrawal with a redeemer yields a Reward redeemer", 203: "a Reward redeemer's index is the rank of its account in the ledger's order (network, script before key, hash)",
                  121: "a multi-UTxO script input gets a single redeemer", 122: "two mint/burn blocks on one policy with different redeemers collapse to one"},
 )
 PROPS["C10"] = dict(
@@ -236,7 +236,7 @@ PROPS["C10"] = dict(
     assumptions=[],
     keep_ids=_only(lambda i: i in (1, 2) or 300 <= i < 400),
     classify=_cls({321: "input_named_twice"}),
-    check_names={301: "no empty multi-asset map", 302: "no empty set/map field", 321: "the template names one UTxO in two input positions (recorded finding F10-5: the inputs field lists it twice)", 303: "no duplicate inputs", 307: "no duplicate reference inputs, collateral inputs or required signers", 304: "network id",
+    check_names={301: "no empty multi-asset map", 302: "no empty set/map field", 321: "the template names one UTxO in two input positions (recorded finding F10-5: the inputs field lists it twice)", 303: "no duplicate inputs", 307: "no duplicate reference inputs, collateral inputs or required signers", 308: "no duplicate certificates (direct probe: one vote delegation directive given 1-3 times)", 304: "network id",
                  305: "script data hash present iff redeemers", 306: "auxiliary data hash present iff metadata",
                  311: "payload decodes as a Conway transaction", 312: "reported hash = Blake2b-256 of the body bytes in the payload",
                  313: "auxiliary data hash = digest of the auxiliary data", 314: "compiling twice gives identical bytes", 316: "script data hash = digest of redeemers + language view"},
@@ -280,7 +280,8 @@ PROPS["C13"] = dict(
     partial=["the theorem is about Analyze.v / Lower.v; that these are the code's analyzer and lowering is the per-case tie (clauses 1-3) on valid and mutated programs"],
     trusted_base=FRONT_TB, assumptions=["programs of the modelled core; asset definitions with literal policy and name"],
     keep_ids=_only(lambda i: i in (1, 2, 3) or 130 <= i < 150),
-    check_names={1: "the analyzer's verdict is the model's", 2: "lowering outcome kind agrees", 3: "lowered IR agrees",
+    classify=_cls({142: "policy_chain_depth"}),
+    check_names={142: "policies naming policies through five or more levels: accepted, lowering fails (recorded finding F13-5)", 1: "the analyzer's verdict is the model's", 2: "lowering outcome kind agrees", 3: "lowered IR agrees",
                  130: "Workspace::lower fails or panics on an accepted program", 131: "an accepted program does not lower (unclassified)",
                  132: "accepted, lowering panics: missing field without spread", 133: "accepted, lowering panics: asset constructor without amount",
                  134: "accepted, lowering panics: name of the wrong kind as a value", 135: "accepted, lowering fails: arity / unknown function",
